@@ -201,6 +201,23 @@ def guarded_conditions(node: ast.AST, stop: ast.AST | None = None) -> list[tuple
     return out
 
 
+def clone(node):
+    """A copy of an expression / statement without the parent links the loader adds (copy.deepcopy would follow `_parent` and copy the
+    whole module each time)."""
+    if isinstance(node, list):
+        return [clone(x) for x in node]
+    if not isinstance(node, ast.AST):
+        return node
+    new = type(node)()
+    for f in node._fields:
+        if hasattr(node, f):
+            setattr(new, f, clone(getattr(node, f)))
+    for a in ("lineno", "col_offset", "end_lineno", "end_col_offset"):
+        if hasattr(node, a):
+            setattr(new, a, getattr(node, a))
+    return new
+
+
 def eval_bool(t: ast.AST, atoms: dict) -> bool | None:
     """Truth value of a test under an assignment of its atoms (source text of a leaf -> bool); `a != b` is read as `not a == b`,
     `x not in y` as `not x in y`; a leaf that is not assigned makes the result None unless the other operands decide it."""
